@@ -6,6 +6,9 @@ package presign
 // Output gate (C01): the online-signing session's result is produced only for a signature that the textbook
 // ECDSA equation accepts for exactly this session's public key and message.
 //@ func (*sign2).Finalize
+// (C04, C05) the round handed to the handler is one the session announced: its number is within the final round
+// number, so the handler holds a queue for it and waits for every party before finalizing it
+//@   ensures[C04,C05] result1 == nil ==> result0.Number() <= old(r.Helper.info.FinalRoundNumber)
 //@   requires r != nil && r.sign1 != nil && r.Helper != nil && r.PreSignature != nil && r.PreSignature.R != nil && r.PublicKey != nil
 //@   requires r.SigmaShares != nil && forall(k, party.ID, indom(r.SigmaShares, k) ==> r.SigmaShares[k] != nil)
 //@   assert_at[C01] ResultRound "return r.ResultRound(s)": ecdsa_valid(s.R, s.S, r.PublicKey, r.Message)
@@ -18,7 +21,7 @@ package presign
 // ---- start functions (C20)
 //@ func StartPresign$1
 // (C09) the session tag is derived under this protocol's OWN identifier (pairwise distinct across all start functions)
-//@   assert_at[C09] NewSession "helper, err := round.NewSession(info, sessionID, pl, c, types.SigningMessage(message))": arg0.ProtocolID == ite(len(message) == 0, "cmp/presign-offline", "cmp/presign-full") && arg0.FinalRoundNumber == ite(len(message) == 0, 7, 8)
+//@   assert_at[C09] NewSession "helper, err := round.NewSession(info, sessionID, pl, c, types.SigningMessage(message))": arg0.ProtocolID == ite(len(message) == 0, "cmp/presign-offline", "cmp/presign-full")
 //@   nopanic[C20]
 //@   requires c != nil ==> cfgwf(c)
 //@   ensures[C20] result1 != nil ==> result0 == nil
@@ -26,6 +29,8 @@ package presign
 //@   loop 1: invariant PublicKey != nil && fresh(ECDSA) && fresh(ElGamal) && fresh(Paillier) && fresh(Pedersen)
 // (induction on the session object) on success the next round starts from the state invariant its methods assume
 //@   ensures result1 == nil ==> (typeis(result0, *presign1) && ps1ok(result0.(*presign1)))
+// (C04, C05) the announced final round number covers every round the session can reach, the identifiable-abort rounds included
+//@   ensures[C04,C05] result1 == nil ==> result0.(*presign1).Helper.info.FinalRoundNumber >= 8
 
 //@ func StartPresignOnline$1
 // (C09) the session tag is derived under this protocol's OWN identifier (pairwise distinct across all start functions)
@@ -34,6 +39,8 @@ package presign
 //@   requires c != nil ==> cfgwf(c)
 //@   ensures[C20] result1 != nil ==> result0 == nil
 //@   ensures[C20] result1 == nil ==> (c != nil && preSignature != nil && len(message) > 0 && lastresult(CanSign) && result0 != nil)
+// (C04, C05) the announced final round number covers every round the session can reach (sign2 is round 8)
+//@   ensures[C04,C05] result1 == nil ==> (typeis(result0, *sign1) && result0.(*sign1).Helper != nil && result0.(*sign1).Helper.info.FinalRoundNumber >= 8)
 
 // ---- identifiable abort (C04): the entry stored under id in the sender's proof map opens the ciphertext that id
 // sent TO THE SENDER (presign6/presign7 publish, under key j, the opening of D[j][self]); it must be checked against
@@ -58,7 +65,7 @@ package presign
 // ---- message handlers of the presigning rounds (C05, C03): no panic for ANY decoded message, and a message is accepted
 // only after the proof attached to it verified against exactly the sender's / recipient's stored values.
 //@ pred psparty(r *presign1, j party.ID) := pkok(r.Paillier[j]) && pkvals(r.Paillier[j]) && pkbig(r.Paillier[j]) && pedok(r.Pedersen[j]) && r.ECDSA[j] != nil && r.ElGamal[j] != nil
-//@ pred ps1ok(r *presign1) := r != nil && r.Helper != nil && r.Helper.hash != nil && r.Helper.hash.h != nil && r.Helper.info.Group != nil && !held(r.Helper.mtx) && r.Paillier != nil && r.Pedersen != nil && r.ECDSA != nil && r.ElGamal != nil && r.SecretPaillier != nil
+//@ pred ps1ok(r *presign1) := r != nil && r.Helper != nil && r.Helper.info.FinalRoundNumber >= 8 && r.Helper.hash != nil && r.Helper.hash.h != nil && r.Helper.info.Group != nil && !held(r.Helper.mtx) && r.Paillier != nil && r.Pedersen != nil && r.ECDSA != nil && r.ElGamal != nil && r.SecretPaillier != nil
 //@ pred ps2ok(r *presign2) := r != nil && ps1ok(r.presign1) && r.K != nil && r.G != nil && r.ElGamalK != nil && r.PresignatureID != nil && r.CommitmentID != nil && r.K != r.G
 //@ pred ps3ok(r *presign3) := r != nil && ps2ok(r.presign2) && r.DeltaCiphertext != nil && r.ChiCiphertext != nil && r.DeltaCiphertext != r.ChiCiphertext
 //@ pred ps4ok(r *presign4) := r != nil && ps3ok(r.presign3) && r.ElGamalChi != nil && r.DeltaShares != nil && r.ElGamalChi != r.ElGamalK
@@ -147,6 +154,9 @@ package presign
 // through) nothing panics; sampled masks stay inside Paillier's plaintext range.
 //@ pred psall(r *presign1) := forall(j, party.ID, inslice(r.Helper.partyIDs, j) ==> psparty(r, j)) && each(r.Helper.otherPartyIDs, x, psparty(r, x)) && psparty(r, r.Helper.info.SelfID) && inslice(r.Helper.partyIDs, r.Helper.info.SelfID) && forall(x, party.ID, inslice(r.Helper.otherPartyIDs, x) ==> inslice(r.Helper.partyIDs, x)) && paillier.skwf(r.SecretPaillier) && r.SecretECDSA != nil && r.SecretElGamal != nil
 //@ func (*presign1).Finalize
+// (C04, C05) the round handed to the handler is one the session announced: its number is within the final round
+// number, so the handler holds a queue for it and waits for every party before finalizing it
+//@   ensures[C04,C05] result1 == nil ==> result0.Number() <= old(r.Helper.info.FinalRoundNumber)
 //@   nopanic[C05]
 //@   use bits
 //@   requires ps1ok(r) && psall(r) && out != nil && !closed(out)
@@ -158,6 +168,9 @@ package presign
 //@   ensures typeis(result0, *round.Abort) ==> result0.(*round.Abort).Err != nil
 //@   ensures typeis(result0, *round.Output) ==> result0.(*round.Output).Result != nil
 //@ func (*presign2).Finalize
+// (C04, C05) the round handed to the handler is one the session announced: its number is within the final round
+// number, so the handler holds a queue for it and waits for every party before finalizing it
+//@   ensures[C04,C05] result1 == nil ==> result0.Number() <= old(r.Helper.info.FinalRoundNumber)
 //@   nopanic[C05]
 //@   use bits
 //@   requires ps2ok(r) && psall(r.presign1) && out != nil && !closed(out) && r.GammaShare != nil && r.GNonce != nil
@@ -170,6 +183,9 @@ package presign
 //@   ensures typeis(result0, *round.Abort) ==> result0.(*round.Abort).Err != nil
 //@   ensures typeis(result0, *round.Output) ==> result0.(*round.Output).Result != nil
 //@ func (*presign3).Finalize
+// (C04, C05) the round handed to the handler is one the session announced: its number is within the final round
+// number, so the handler holds a queue for it and waits for every party before finalizing it
+//@   ensures[C04,C05] result1 == nil ==> result0.Number() <= old(r.Helper.info.FinalRoundNumber)
 //@   nopanic[C05]
 //@   requires ps3ok(r) && psall(r.presign1) && out != nil && !closed(out) && r.GammaShare != nil && r.KShare != nil && r.DeltaShareBeta != nil && r.ChiShareBeta != nil
 //@   requires forall(j, party.ID, inslice(r.Helper.otherPartyIDs, j) ==> (r.DeltaCiphertext[j] != nil && r.ChiCiphertext[j] != nil && r.DeltaShareBeta[j] != nil && r.ChiShareBeta[j] != nil))
@@ -195,6 +211,9 @@ package presign
 //@   ensures typeis(result0, *round.Abort) ==> result0.(*round.Abort).Err != nil
 //@   ensures typeis(result0, *round.Output) ==> result0.(*round.Output).Result != nil
 //@ func (*presign4).Finalize
+// (C04, C05) the round handed to the handler is one the session announced: its number is within the final round
+// number, so the handler holds a queue for it and waits for every party before finalizing it
+//@   ensures[C04,C05] result1 == nil ==> result0.Number() <= old(r.Helper.info.FinalRoundNumber)
 //@   nopanic[C05]
 //@   use bits
 //@   requires ps4ok(r) && psall(r.presign1) && out != nil && !closed(out) && r.GammaShare != nil && r.GNonce != nil && r.G[r.Helper.info.SelfID] != nil && r.G[r.Helper.info.SelfID].c != nil
@@ -206,6 +225,9 @@ package presign
 //@   ensures typeis(result0, *round.Abort) ==> result0.(*round.Abort).Err != nil
 //@   ensures typeis(result0, *round.Output) ==> result0.(*round.Output).Result != nil
 //@ func (*presign5).Finalize
+// (C04, C05) the round handed to the handler is one the session announced: its number is within the final round
+// number, so the handler holds a queue for it and waits for every party before finalizing it
+//@   ensures[C04,C05] result1 == nil ==> result0.Number() <= old(r.Helper.info.FinalRoundNumber)
 //@   nopanic[C05]
 //@   requires ps5ok(r) && psall(r.presign1) && out != nil && !closed(out) && r.KShare != nil && r.ElGamalKNonce != nil
 //@   requires forall(j, party.ID, indom(r.BigGammaShare, j) ==> r.BigGammaShare[j] != nil)
@@ -228,6 +250,9 @@ package presign
 //@   ensures result != nil
 //@ pred psopen(r *presign3) := forall(j, party.ID, inslice(r.Helper.otherPartyIDs, j) ==> (r.DeltaCiphertext[j] != nil && r.ChiCiphertext[j] != nil && paillier.ctvalid(r.SecretPaillier.PublicKey, r.DeltaCiphertext[j][r.Helper.info.SelfID]) && paillier.ctvalid(r.SecretPaillier.PublicKey, r.ChiCiphertext[j][r.Helper.info.SelfID]))) && paillier.ctvalid(r.SecretPaillier.PublicKey, r.K[r.Helper.info.SelfID])
 //@ func (*presign6).Finalize
+// (C04, C05) the round handed to the handler is one the session announced: its number is within the final round
+// number, so the handler holds a queue for it and waits for every party before finalizing it
+//@   ensures[C04,C05] result1 == nil ==> result0.Number() <= old(r.Helper.info.FinalRoundNumber)
 //@   nopanic[C05]
 //@   requires ps6ok(r) && psall(r.presign1) && psopen(r.presign3) && out != nil && !closed(out) && r.KShare != nil && r.ChiShare != nil && r.GammaShare != nil && r.ElGamalChiNonce != nil
 //@   requires forall(j, party.ID, indom(r.DeltaShares, j) ==> r.DeltaShares[j] != nil) && forall(j, party.ID, indom(r.BigDeltaShares, j) ==> r.BigDeltaShares[j] != nil)
@@ -244,6 +269,9 @@ package presign
 //@   ensures typeis(result0, *round.Abort) ==> result0.(*round.Abort).Err != nil
 //@   ensures typeis(result0, *round.Output) ==> result0.(*round.Output).Result != nil
 //@ func (*presign7).Finalize
+// (C04, C05) the round handed to the handler is one the session announced: its number is within the final round
+// number, so the handler holds a queue for it and waits for every party before finalizing it
+//@   ensures[C04,C05] result1 == nil ==> result0.Number() <= old(r.Helper.info.FinalRoundNumber)
 //@   nopanic[C05]
 //@   requires ps7ok(r) && psall(r.presign1) && psopen(r.presign3) && out != nil && !closed(out) && r.KShare != nil && r.ChiShare != nil && r.ElGamalChiNonce != nil && r.PublicKey != nil && r.RBar != nil && r.ChiShareAlpha != nil
 //@   requires forall(j, party.ID, indom(r.S, j) ==> r.S[j] != nil) && forall(j, party.ID, indom(r.RBar, j) ==> r.RBar[j] != nil) && forall(j, party.ID, indom(r.PresignatureID, j) ==> len(r.PresignatureID[j]) == 32) && forall(j, party.ID, indom(r.ChiShareAlpha, j) ==> r.ChiShareAlpha[j] != nil)
@@ -258,8 +286,11 @@ package presign
 //@   ensures typeis(result0, *round.Abort) ==> result0.(*round.Abort).Err != nil
 //@   ensures typeis(result0, *round.Output) ==> result0.(*round.Output).Result != nil
 //@ func (*sign1).Finalize
+// (C04, C05) the round handed to the handler is one the session announced: its number is within the final round
+// number, so the handler holds a queue for it and waits for every party before finalizing it
+//@   ensures[C04,C05] result1 == nil ==> result0.Number() <= old(r.Helper.info.FinalRoundNumber)
 //@   nopanic[C05]
-//@   requires r != nil && r.Helper != nil && out != nil && !closed(out) && r.PreSignature != nil && r.PreSignature.R != nil && r.PreSignature.KShare != nil && r.PreSignature.ChiShare != nil && len(r.Message) > 0
+//@   requires r != nil && r.Helper != nil && r.Helper.info.FinalRoundNumber >= 8 && out != nil && !closed(out) && r.PreSignature != nil && r.PreSignature.R != nil && r.PreSignature.KShare != nil && r.PreSignature.ChiShare != nil && len(r.Message) > 0
 // refinement of the interface contract of round.Round.Finalize (what the handler relies on)
 //@   ensures !closed(out)
 //@   ensures result1 == nil ==> result0 != nil
@@ -278,6 +309,9 @@ package presign
 //@   ensures typeis(result0, *round.Abort) ==> result0.(*round.Abort).Err != nil
 //@   ensures typeis(result0, *round.Output) ==> result0.(*round.Output).Result != nil
 //@ func (*abort1).Finalize
+// (C04, C05) the round handed to the handler is one the session announced: its number is within the final round
+// number, so the handler holds a queue for it and waits for every party before finalizing it
+//@   ensures[C04,C05] result1 == nil ==> result0.Number() <= old(r.Helper.info.FinalRoundNumber)
 //@   nopanic[C05]
 //@   requires r != nil && ps6ok(r.presign6) && r.KShares != nil && r.GammaShares != nil && r.DeltaAlphas != nil
 //@   requires forall(x, party.ID, inslice(r.Helper.otherPartyIDs, x) ==> inslice(r.Helper.partyIDs, x))
@@ -294,6 +328,9 @@ package presign
 //@   ensures typeis(result0, *round.Abort) ==> result0.(*round.Abort).Err != nil
 //@   ensures typeis(result0, *round.Output) ==> result0.(*round.Output).Result != nil
 //@ func (*abort2).Finalize
+// (C04, C05) the round handed to the handler is one the session announced: its number is within the final round
+// number, so the handler holds a queue for it and waits for every party before finalizing it
+//@   ensures[C04,C05] result1 == nil ==> result0.Number() <= old(r.Helper.info.FinalRoundNumber)
 //@   nopanic[C05]
 //@   requires r != nil && ps7ok(r.presign7) && r.KShares != nil && r.YHat != nil && r.ChiAlphas != nil
 //@   requires forall(x, party.ID, inslice(r.Helper.otherPartyIDs, x) ==> inslice(r.Helper.partyIDs, x))
